@@ -437,6 +437,24 @@ def rule_pn_spaces(tree: Tree) -> RuleResult:
                 ok2 = False
     r.ob(ok2 and found == 2, Finding("PNS", "quic.quic_session:QuicSession.set_packet_number_spaces:init",
                                      "both per-direction largest-number tables must be initialised to 0 for exactly the spaces of PACKET_TYPE_MAP", m.line(f.node)))
+    # largest-received state lives as long as the connection: set_packet_number_spaces is called from the constructor only (a Retry or a
+    # key change must not reset it, RFC 9000 §17.2.5.3 / §12.3); nothing else rebinds the tables
+    r.instances += 1
+    from ..callgraph import CallGraph
+    cg = CallGraph.of(tree)
+    callers = sorted({cs.caller.qualname for cs in cg.callers_of(f)})
+    writers = []
+    qs = tree.cls("quic.quic_session", "QuicSession")
+    for meth in qs.methods.values():
+        for n in body_walk(meth.node):
+            if isinstance(n, ast.Assign) and (dotted(n.targets[0]) or "").startswith("self.packet_number_") and meth.name not in ("set_packet_number_spaces", "__init__", "reset"):
+                writers.append(meth.qualname)
+            if isinstance(n, ast.Call) and isinstance(n.func, ast.Attribute) and n.func.attr in ("clear", "update", "pop") and "packet_number_" in (dotted(n.func.value) or ""):
+                writers.append(meth.qualname)
+    r.ob(set(callers) <= {"QuicSession.__init__", "QuicSession.reset"} and not writers,
+         Finding("PNS", "quic.quic_session:QuicSession.set_packet_number_spaces:callers",
+                 f"the largest-packet-number tables may only be initialised when the session is created; set_packet_number_spaces is called from {callers}, tables rebound in {writers}: "
+                 f"resetting them mid-connection (e.g. at a Retry) makes the next truncated number decode against largest = 0", m.line(f.node)))
     # read and write use the same key expression and the direction's own table
     r.instances += 1
     g = tree.func("quic.quic_session", "QuicSession.get_full_packet_number")
